@@ -159,6 +159,8 @@ def run_roundtrip(case):
                 res.violation("file-mismatch", "after `gwf %s` the file has %s; model %s (differs at %s)" % (" ".join(args), data, model_, bad), **ctx)
                 # resynchronise the model with the file to keep going
                 model_ = {k: [v] for k, v in data.items()}
+        res.obs("final_model", {k: v for k, v in model_.items()})
+        res.obs("ops", [(o["op"], o["key"], o["value"][:20], o["from"]) for o in case["ops"]])
         res.sig = kinds
         res.nontrivial = coerced and dotted and "u" in kinds
     return res
